@@ -1,0 +1,44 @@
+//go:build verif
+
+// Contracts for package netutil (dialers with DNS caching), checked by /verif/govc. Comment-only: no code.
+package netutil
+
+//@ iface Dialer.DialContext
+//@ ensures imp(result1 == nil, result0 != nil)
+//@ iface DNSCache.Get
+//@ iface DNSCache.Add
+
+// The shared cache is only read and written under its lock; every path releases it.
+//@ guarded_by SimpleDNSCache.hostToAddr rw
+
+//@ func (c *SimpleDNSCache) Get
+//@ props C11 C09
+//@ requires held(c.rw) == 0
+//@ ensures [lock-released] held(c.rw) == 0
+//@ ensures [what-was-cached] imp(c.hostToAddr != nil, ok == has(c.hostToAddr, addr) && imp(ok, resolved == c.hostToAddr[addr])) && imp(c.hostToAddr == nil, !ok)
+
+//@ func (c *SimpleDNSCache) Add
+//@ props C11 C09
+//@ requires held(c.rw) == 0
+//@ ensures [lock-released] held(c.rw) == 0
+//@ ensures [cached] c.hostToAddr != nil && has(c.hostToAddr, addr) && c.hostToAddr[addr] == resolved
+
+// Dial through the cache: a cached address is dialled instead of the name; after a first successful dial the peer's address
+// with the asked port is remembered under the asked name; a dial failure is returned as it is.
+//@ func NewDNSCachingDialer#lit0
+//@ props C09
+//@ requires dialer != nil && cache != nil
+//@ may_panic true
+//@ at call dialer.DialContext#0 assert [the-cached-address] arg(ctx) == ctx0 && arg(net) == network && arg(addr) == result_of(cache.Get, 0) && result_of(cache.Get, 1)
+//@ at call dialer.DialContext#1 assert [the-name-itself-when-nothing-is-cached] arg(ctx) == ctx0 && arg(net) == network && arg(addr) == addr0 && !result_of(cache.Get, 1)
+//@ at call cache.Get assert arg(addr) == addr0
+//@ at return conn.RemoteAddr assume [the-transports-dial-tcp-only-and-a-tcp-connection-has-a-tcp-address] typeis(result_of(conn.RemoteAddr, 0), *net.TCPAddr) && result_of(conn.RemoteAddr, 0).(*net.TCPAddr) != nil
+//@ at call cache.Add assert [remembered-under-the-asked-name-with-the-asked-port] arg(addr) == addr0 && arg(resolved) == result_of(net.JoinHostPort, 0)
+//@ at call net.JoinHostPort assert arg(a1) == result_of(net.SplitHostPort, 1)
+
+//@ func (f DialerFunc) DialContext
+//@ props C09
+//@ requires f != nil
+//@ may_panic true
+//@ at call f assert arg(a0) == ctx0 && arg(a1) == network0 && arg(a2) == address0
+//@ ensures result0 == result_of(f, 0) && result1 == result_of(f, 1)
